@@ -712,7 +712,7 @@ func fmtChanges(ch []change) string {
 
 // genChanges draws a change set; most are valid, some are one of the invalid classes.
 func genChanges(t *core.Tape, m *model, universe int) ([]change, string) {
-	kind := []string{"valid", "valid-big", "duplicate", "negative", "remove-unknown", "empty-set", "above-cap", "single-above-cap", "empty"}[t.Weighted(10, 3, 1, 1, 1, 1, 1, 1, 1)]
+	kind := []string{"valid", "valid-big", "duplicate", "negative", "remove-unknown", "empty-set", "above-cap", "single-above-cap", "empty", "wrap-int64"}[t.Weighted(10, 3, 1, 1, 1, 1, 1, 1, 1, 1)]
 	var ch []change
 	in := map[common.Address]bool{}
 	for _, v := range m.vals {
@@ -820,6 +820,13 @@ func genChanges(t *core.Tape, m *model, universe int) ([]change, string) {
 			if ok {
 				ch = append(ch, change{a, math.MaxInt64/8/8 + int64(t.Range(1, 1000))})
 			}
+		}
+	case "wrap-int64":
+		// many entries, each legal on its own (at or just below the cap), whose sum wraps a 64-bit
+		// counter back into the legal range: 16 x cap = 2^64 - 16
+		n := []int{8, 15, 16, 17, 24, 32}[t.Draw(6)]
+		for i := 0; i < n; i++ {
+			ch = append(ch, change{addrOf(100 + i), math.MaxInt64/8 - int64(t.Draw(3))})
 		}
 	case "single-above-cap":
 		if a, ok := pick(t.Chance(1, 2)); ok {
